@@ -4,6 +4,7 @@ import (
 	"sort"
 	"strconv"
 	"strings"
+	"sync/atomic"
 
 	"verif/lib/kf"
 )
@@ -246,7 +247,24 @@ type worker struct {
 	agg aggregator
 	// informational: ReplacePart returned true although the prefix is unchanged
 	resetConservative uint64
-	buf               []string
+	// inputs on which the reference Rel itself does not terminate (skipped)
+	refDiverges   uint64
+	divergeEx     [][2]string
+	hangConfirmed int
+
+	// watchdog: progress counter and the input being evaluated
+	progress atomic.Uint64
+	busy     atomic.Bool
+	curOS    *osCtx
+	curKind  string
+	curArgs  [3]string
+}
+
+// begin notes the input about to be evaluated (read by the watchdog only when
+// the worker has made no progress for a long time).
+func (w *worker) begin(o *osCtx, kind string, a, b, c string) {
+	w.curOS, w.curKind, w.curArgs = o, kind, [3]string{a, b, c}
+	w.progress.Add(1)
 }
 
 func newWorker() *worker { return &worker{agg: aggregator{}} }
